@@ -347,6 +347,15 @@ example : Rel breached ⟨(validateFile breached).errors.filter (·.id != "a1"),
     Rel conforming ⟨[⟨"t0", .refUnits⟩], (validateFile conforming).warnings⟩ = false ∧
     Rel conforming ⟨[⟨"a0", .unitSI⟩], [⟨"p0", .propNoUnit⟩]⟩ = false ∧
     Rel conforming ⟨[], []⟩ = false := by decide +kernel
+
+/-- why `WF` is a hypothesis of completeness: the loops `break` (not `continue`) at a descriptor whose index lies beyond
+    the rank, which would hide a later mismatch — here 3 ticks for 2 data entries behind a descriptor claiming index 5.
+    The HDF5 backend cannot produce such a description (a descriptor's index is the position it is fetched from). -/
+def notWF : ArrayDesc Int :=
+  { ent := ent "x", dtypeSet := .val true, dimCount := .val 2, shape := [2, 2],
+    dims := [⟨5, .set 0, "none"⟩, ⟨2, .set 3, "none"⟩],
+    unit := .val none, polyN := .val 0, originSet := .val false }
+example : arrayWF notWF = false ∧ arrayBreaches notWF = [.labels] ∧ (validateArray notWF).errors = [] := by decide +kernel
 end Example
 
 end Nix.C19
